@@ -146,6 +146,9 @@ var c15Cases = []c15Case{
 	{`12 // {type: "@t", nullable: true}`, [][2]string{{"@t", `12 // {min: 10}`}}},
 	{"{\n  \"v\": 12 // {or: [{type: \"@t\", nullable: true}, \"@u\"]}\n}", [][2]string{{"@t", `12 // {min: 10}`}, {"@u", `"abc"`}}},
 	{"{\n  @k: 1\n}", [][2]string{{"@k", `@k | @s`}, {"@s", `"abc"`}}},
+	// keys written with escape sequences and inherited through allOf
+	{"{ // {allOf: \"@base\"}\n  \"own\": 1\n}", [][2]string{{"@base", "{\n  \"a\\\"b\": 1,\n  \"c\\\\d\": 2,\n  \"e\\nf\": 3\n}"}}},
+	{"{ // {allOf: [\"@base\", \"@b2\"]}\n}", [][2]string{{"@base", "{\n  \"t\\tab\": 1\n}"}, {"@b2", "{\n  \"q\\\"\": \"v\"\n}"}}},
 }
 
 // ZZC15Types: user types, or, enum, allOf, key shortcuts, optional recursion.
